@@ -478,6 +478,16 @@ def programs(tier: str) -> list[Program]:
                           (lambda ex, backend=backend: execute_cancel_released(ex, backend))))
     ps.append(Program("cancel_waiting_run/dbos", {"program": "cancel_waiting_run", "stack": "dbos"},
                       (lambda ex: execute_cancel_released(ex, "memory", "dbos"))))
+    # a restarted server over a store whose reads suspend: the client's answer reloads the run on demand while the start-up pass is
+    # still replaying it - the record must end as the run ends (C13's driver, judged on the handler record)
+    from vmc.checks import c13 as _c13
+
+    for backend in (("memory",) if q else ("memory", "sqlite")):
+        for k in ((2, 3) if q else range(1, 8)):
+            ps.append(Program(f"restart_vs_on_demand_reload/{backend}/network_store/stop_after_tick_{k:02d}",
+                              {"program": "restart_vs_on_demand_reload", "backend": backend, "crash_at": k},
+                              (lambda ex, backend=backend, k=k: _c13.execute(ex, "wait_busy_answer_after_restart", backend, k, network=True)),
+                              max_dev=(4 if q else 5)))
     return ps
 
 
